@@ -40,17 +40,96 @@ def scratch():
     return _scratch
 
 
-def axioms_for(text):
-    used = set()
-    for nm in ('seq_rev', 'hexlify', 'unhexlify', 'int_from_le', 'int_to_le', 'int_from_be', 'int_to_be'):
-        if nm in text:
-            used.add(nm)
-    if 'utf8_' in text:
-        used.add('utf8')
-    ax = list(bm.uf_axioms(used))
-    if 'pow2' in text:
+def _collect_apps(terms, names):
+    """all applications of the named uninterpreted functions occurring in terms"""
+    seen = set()
+    out = []
+    stack = list(terms)
+    while stack:
+        t = stack.pop()
+        i = t.get_id()
+        if i in seen:
+            continue
+        seen.add(i)
+        if z3.is_quantifier(t):
+            stack.append(t.body())
+            continue
+        if z3.is_app(t):
+            if t.num_args() and t.decl().kind() == z3.Z3_OP_UNINTERPRETED and t.decl().name() in names:
+                out.append(t)
+            stack.extend(t.children())
+    return out
+
+
+GROUND_UFS = {'int_to_le', 'int_to_be', 'int_from_le', 'int_from_be', 'hexlify', 'unhexlify', 'seq_rev',
+              'utf8_encode', 'utf8_decode', 'utf8_valid'}
+
+
+def ground_axioms(terms):
+    """Ground instances of the contracts of the uninterpreted library functions, one set per
+    application that occurs in the query (no quantified axioms: an over-general quantified law such
+    as `from_le(to_le(n, k)) == n` for *all* n is inconsistent, and was caught by the canary)."""
+    hexre = z3.Star(z3.Union(z3.Range(mk_str('0'), mk_str('9')), z3.Range(mk_str('a'), mk_str('f'))))
+    facts = []
+    done = set()
+    work = list(terms)
+    for _round in range(3):
+        apps = [a for a in _collect_apps(work, GROUND_UFS) if a.get_id() not in done]
+        if not apps:
+            break
+        new = []
+        for a in apps:
+            done.add(a.get_id())
+            nm = a.decl().name()
+            if nm in ('int_to_le', 'int_to_be'):
+                v, k = a.arg(0), a.arg(1)
+                inv = bm._LE if nm == 'int_to_le' else bm._BE
+                ks = z3.simplify(k)
+                bound = z3.IntVal(2 ** (8 * ks.as_long())) if z3.is_int_value(ks) and 0 <= ks.as_long() <= 64 else ops._POW2(8 * k)
+                new += [z3.Length(a) == z3.If(k >= 0, k, 0), z3.InRe(a, byte_re()),
+                        z3.Implies(z3.And(v >= 0, v < bound, k >= 0), inv(a) == v)]
+            elif nm in ('int_from_le', 'int_from_be'):
+                sarg = a.arg(0)
+                fwd = bm._TOLE if nm == 'int_from_le' else bm._TOBE
+                ln = z3.simplify(z3.Length(sarg))
+                new += [a >= 0]
+                if z3.is_int_value(ln) and ln.as_long() <= 64:
+                    new += [a < 2 ** (8 * ln.as_long())]
+                new += [z3.Implies(z3.InRe(sarg, byte_re()), fwd(a, z3.Length(sarg)) == sarg)]
+            elif nm == 'hexlify':
+                sarg = a.arg(0)
+                new += [z3.Length(a) == 2 * z3.Length(sarg), z3.InRe(a, hexre), bm._UNHEX(a) == sarg]
+            elif nm == 'unhexlify':
+                sarg = a.arg(0)
+                new += [2 * z3.Length(a) == z3.Length(sarg), z3.InRe(a, byte_re()),
+                        z3.Implies(z3.InRe(sarg, hexre), bm._HEX(a) == sarg)]
+            elif nm == 'seq_rev':
+                sarg = a.arg(0)
+                new += [z3.Length(a) == z3.Length(sarg), bm._REV(a) == sarg,
+                        z3.Implies(z3.InRe(sarg, byte_re()), z3.InRe(a, byte_re())),
+                        z3.Implies(z3.Length(sarg) <= 1, a == sarg)]
+            elif nm == 'utf8_encode':
+                sarg = a.arg(0)
+                new += [z3.InRe(a, byte_re()), bm._UTF8OK(a), bm._UTF8DEC(a) == sarg, z3.Length(a) >= z3.Length(sarg),
+                        z3.Implies(z3.InRe(sarg, bm.ascii_re()), a == sarg)]
+            elif nm == 'utf8_decode':
+                sarg = a.arg(0)
+                new += [z3.Implies(bm._UTF8OK(sarg), bm._UTF8ENC(a) == sarg),
+                        z3.Implies(z3.InRe(sarg, bm.ascii_re()), a == sarg), z3.Length(a) <= z3.Length(sarg)]
+            elif nm == 'utf8_valid':
+                sarg = a.arg(0)
+                new += [z3.Implies(z3.InRe(sarg, bm.ascii_re()), a)]
+        facts += new
+        work = new
+    return facts
+
+
+def axioms_for(text, terms=()):
+    ax = ground_axioms(terms)
+    probe = text + ''.join(a.sexpr() for a in ax)
+    if 'pow2' in probe:
         ax += ops.pow2_axioms()
-    if 'seq_repeat' in text:
+    if 'seq_repeat' in probe:
         ax += ops.repeat_axioms()
     return ax
 
@@ -59,13 +138,16 @@ def to_smt2(pc, goal, extra_axioms=(), negate=True, mention=()):
     s = z3.Solver()
     for t in mention:       # make sure input constants (and their sorts) are declared for (get-value)
         s.add(t == t)
+    terms = []
     for p in pc:
         s.add(p)
+        terms.append(p)
     if goal is not None:
         g = goal if not isinstance(goal, bool) else z3.BoolVal(goal)
         s.add(z3.Not(g) if negate else g)
+        terms.append(g)
     text = s.to_smt2()
-    ax = axioms_for(text) + list(extra_axioms)
+    ax = axioms_for(text, terms) + list(extra_axioms)
     if ax:
         for a in ax:
             s.add(a)
